@@ -16,6 +16,15 @@
 // definition) ascon::byte_array is the library's own class: byte arrays are
 // then built with mk_ba(), and the members that only exist with the STL
 // (std::string overloads, bytes_to_hex) answer / are marked SKIPPED-NOSTL.
+// With -DARDUINO=10819 (the third, "arduino" harness of lib/p_c17.py: the same sources and
+// src/cplusplus/*.cpp compiled with that definition against the stub harness/arduino_stub,
+// a functional stand-in for the Arduino core's String) utility.h defines ASCON_NO_STL itself
+// and the headers declare the String overloads: AS / US (the std::string tokens) then run
+// through absorb(const String &) / update(const String &), TOHEX / TOHEXD through the
+// bytes_to_hex functions returning String, FROMHEX S through bytes_from_hex(const String &),
+// and AC / UC / FROMHEX C with a non-null text go, on the toss of ba_coin(), through a String
+// built from the text instead of the const char * overload.  Every printed line must equal
+// the default build's line (no SKIPPED-NOSTL marker appears): same bytes, same result.
 #include "hx.h"
 #include <string>
 #include <vector>
@@ -64,6 +73,11 @@ static ascon::byte_array mk_ba(const Bytes &v) {
 }
 // In half of the calls the output array shares its buffer with a copy taken before the call (the library's own class
 // counts references; std::vector copies): the copy must keep the old contents, whatever the call does to the output.
+#if defined(ARDUINO)
+// the String holding exactly these characters (appended one by one: may contain NULs, like a real String)
+static String mk_string(const unsigned char *p, size_t n) { String s; for (size_t i = 0; i < n; ++i) s += (char)p[i]; return s; }
+static String mk_string(const Bytes &v) { return mk_string(v.data(), v.size()); }
+#endif
 static ascon::byte_array ba_keep(const ascon::byte_array &out) { return ba_coin() ? ascon::byte_array(out) : ascon::byte_array(3, BAOLD); }
 static bool ba_old(const ascon::byte_array &keep) { return keep.size() == 3 && keep.data()[0] == BAOLD && keep.data()[1] == BAOLD && keep.data()[2] == BAOLD; }
 
@@ -75,6 +89,13 @@ struct Ptr {
     const unsigned char *p() const { return null ? 0 : buf->p; }
 private: Ptr(const Ptr &); Ptr &operator=(const Ptr &);
 };
+
+// Everything handed to the library is a caller buffer of EXACTLY the documented size (hx.h Buf: exact heap block under
+// VERIF_EXACT, misaligned under VERIF_MISALIGN, canaries otherwise): KBUF = key bytes, NBUF = a 16-byte nonce, OBJ = a C key
+// object (masked key, expanded ISAP key) copied into an exact, aligned block of its own.
+#define KBUF(name, src, len) Buf name(len); memcpy(name.p, (src), (len))
+#define NBUF(name, src) Buf name(16); memcpy(name.p, (src), 16)
+#define OBJ(name, T, src) Buf name(sizeof(T), false, 0xEE, true); memcpy(name.p, (src), sizeof(T))
 
 // ---- the twelve classes ---------------------------------------------------
 struct Doc { bool kknown, nknown, saved; Bytes key; unsigned char nonce[16]; };
@@ -109,8 +130,8 @@ struct Cls_##CLS : Cls { typedef ascon::CLS C;                                  
     void grab(ascon::aead &o, KeyObj &ko, unsigned char *n) { C &c = static_cast<C &>(o); memcpy(ko.u.raw, c.m_state.key, KS); memcpy(n, c.m_state.nonce, 16); } \
     void from_doc(KeyObj &ko, const Doc &d) { memcpy(ko.u.raw, d.key.data(), KS); }                         \
     Bytes image(KeyObj &ko) { return Bytes(ko.u.raw, ko.u.raw + KS); }                                      \
-    void enc(ENCARGS, const KeyObj &ko) { ENC(c, clen, m, mlen, ad, adlen, n, ko.u.raw); }                  \
-    int dec(DECARGS, const KeyObj &ko) { return DEC(m, mlen, c, clen, ad, adlen, n, ko.u.raw); }            \
+    void enc(ENCARGS, const KeyObj &ko) { KBUF(kb, ko.u.raw, KS); NBUF(nb, n); ENC(c, clen, m, mlen, ad, adlen, nb.p, kb.p); } \
+    int dec(DECARGS, const KeyObj &ko) { KBUF(kb, ko.u.raw, KS); NBUF(nb, n); return DEC(m, mlen, c, clen, ad, adlen, nb.p, kb.p); } \
     void save(ascon::aead &, unsigned char *) {}                                                            \
     void randomize(ascon::aead &) {} };
 
@@ -120,10 +141,11 @@ struct Cls_##CLS : Cls { typedef ascon::CLS C; typedef MK##_t MKT;              
     ascon::aead *make_default(void *st) { return new (st) C(); }                                            \
     ascon::aead *make_key(void *st, const unsigned char *k, size_t) { return new (st) C(k); }               \
     void grab(ascon::aead &o, KeyObj &ko, unsigned char *n) { C &c = static_cast<C &>(o); memcpy(ko.u.raw, &c.m_key, sizeof(MKT)); memcpy(n, c.m_nonce, 16); } \
-    void from_doc(KeyObj &ko, const Doc &d) { MK##_init((MKT *)ko.u.raw, d.key.data()); }                   \
-    Bytes image(KeyObj &ko) { Bytes v(KS); MK##_extract((const MKT *)ko.u.raw, v.data()); return v; }       \
-    void enc(ENCARGS, const KeyObj &ko) { ENC(c, clen, m, mlen, ad, adlen, n, (const MKT *)ko.u.raw); }     \
-    int dec(DECARGS, const KeyObj &ko) { return DEC(m, mlen, c, clen, ad, adlen, n, (const MKT *)ko.u.raw); } \
+    void from_doc(KeyObj &ko, const Doc &d) { KBUF(kb, d.key.data(), KS); Buf ob(sizeof(MKT), false, 0xEE, true);  \
+        MK##_init((MKT *)ob.p, kb.p); memcpy(ko.u.raw, ob.p, sizeof(MKT)); }                                \
+    Bytes image(KeyObj &ko) { OBJ(ob, MKT, ko.u.raw); Buf v(KS); MK##_extract((const MKT *)ob.p, v.p); return Bytes(v.p, v.p + KS); } \
+    void enc(ENCARGS, const KeyObj &ko) { OBJ(ob, MKT, ko.u.raw); NBUF(nb, n); ENC(c, clen, m, mlen, ad, adlen, nb.p, (const MKT *)ob.p); } \
+    int dec(DECARGS, const KeyObj &ko) { OBJ(ob, MKT, ko.u.raw); NBUF(nb, n); return DEC(m, mlen, c, clen, ad, adlen, nb.p, (const MKT *)ob.p); } \
     void save(ascon::aead &, unsigned char *) {}                                                            \
     void randomize(ascon::aead &o) { static_cast<C &>(o).randomize_key(); } };
 
@@ -133,11 +155,15 @@ struct Cls_##CLS : Cls { typedef ascon::CLS C; typedef PFX##_key_t PKT;         
     ascon::aead *make_default(void *st) { return new (st) C(); }                                            \
     ascon::aead *make_key(void *st, const unsigned char *k, size_t len) { return new (st) C(k, len); }      \
     void grab(ascon::aead &o, KeyObj &ko, unsigned char *n) { C &c = static_cast<C &>(o); memcpy(ko.u.raw, &c.m_key, sizeof(PKT)); memcpy(n, c.m_nonce, 16); } \
-    void from_doc(KeyObj &ko, const Doc &d) { if (d.saved) PFX##_load_key((PKT *)ko.u.raw, d.key.data()); else PFX##_init((PKT *)ko.u.raw, d.key.data()); } \
-    Bytes image(KeyObj &ko) { Bytes v(ASCON_ISAP_SAVED_KEY_SIZE); PFX##_save_key((PKT *)ko.u.raw, v.data()); return v; } \
-    void enc(ENCARGS, const KeyObj &ko) { PFX##_encrypt(c, clen, m, mlen, ad, adlen, n, (const PKT *)ko.u.raw); } \
-    int dec(DECARGS, const KeyObj &ko) { return PFX##_decrypt(m, mlen, c, clen, ad, adlen, n, (const PKT *)ko.u.raw); } \
-    void save(ascon::aead &o, unsigned char *s) { static_cast<C &>(o).save_key(s); }                        \
+    void from_doc(KeyObj &ko, const Doc &d) { KBUF(kb, d.key.data(), d.saved ? (size_t)ASCON_ISAP_SAVED_KEY_SIZE : (size_t)KS);  \
+        Buf ob(sizeof(PKT), false, 0xEE, true);                                                             \
+        if (d.saved) PFX##_load_key((PKT *)ob.p, kb.p); else PFX##_init((PKT *)ob.p, kb.p);                 \
+        memcpy(ko.u.raw, ob.p, sizeof(PKT)); }                                                              \
+    Bytes image(KeyObj &ko) { OBJ(ob, PKT, ko.u.raw); Buf v(ASCON_ISAP_SAVED_KEY_SIZE); PFX##_save_key((PKT *)ob.p, v.p);  \
+        return Bytes(v.p, v.p + ASCON_ISAP_SAVED_KEY_SIZE); }                                               \
+    void enc(ENCARGS, const KeyObj &ko) { OBJ(ob, PKT, ko.u.raw); NBUF(nb, n); PFX##_encrypt(c, clen, m, mlen, ad, adlen, nb.p, (const PKT *)ob.p); } \
+    int dec(DECARGS, const KeyObj &ko) { OBJ(ob, PKT, ko.u.raw); NBUF(nb, n); return PFX##_decrypt(m, mlen, c, clen, ad, adlen, nb.p, (const PKT *)ob.p); } \
+    void save(ascon::aead &o, unsigned char *s) { Buf sb(ASCON_ISAP_SAVED_KEY_SIZE); static_cast<C &>(o).save_key(sb.p); memcpy(s, sb.p, ASCON_ISAP_SAVED_KEY_SIZE); } \
     void randomize(ascon::aead &) {} };
 
 PLAIN_CLS(aead128, 16, ascon128_aead_encrypt, ascon128_aead_decrypt, true)
@@ -223,8 +249,8 @@ struct Run {
     }
 
     std::string go(const Toks &t, Out &out) {
-        unsigned char *store = (unsigned char *)malloc(x.objsize + 64);
-        memset(store, JUNK, x.objsize + 64);
+        Buf storeb(x.objsize, false, JUNK, true);        // the C++ object lives in a block of exactly sizeof(class) bytes
+        unsigned char *store = storeb.p;
         cands.push_back(Bytes(x.K, 0));
         // candidates for ISAP key recognition: every pointer content / raw key in the line
         for (size_t i = 2; i < t.size(); ++i) {
@@ -249,8 +275,8 @@ struct Run {
             } else if (f[0] == "KLS") {                  // T(saved, 80), saved = save_key() of another object
                 Bytes raw = unhex(f[1]); Buf rb(raw);
                 unsigned char s[ASCON_ISAP_SAVED_KEY_SIZE];
-                { std::vector<unsigned char> ts(x.objsize + 64); C *tmp = x.make_default(ts.data()); tmp->set_key(rb.p, x.K); x.save(*tmp, s); tmp->~C(); }
-                o = x.make_key(store, s, sizeof(s));
+                { Buf ts(x.objsize, false, JUNK, true); C *tmp = x.make_default(ts.p); tmp->set_key(rb.p, x.K); x.save(*tmp, s); tmp->~C(); }
+                { KBUF(sb, s, sizeof(s)); o = x.make_key(store, sb.p, sizeof(s)); }
                 doc.saved = true; doc.key.assign(s, s + sizeof(s));
             } else return "BADCTOR";
             out.put("C[ks=" + std::to_string(o->key_size()) + ",ts=" + std::to_string(o->tag_size()) + ",ns=" + std::to_string(o->nonce_size())
@@ -271,8 +297,8 @@ struct Run {
             } else if (op == "SKS") {
                 Bytes raw = unhex(f[1]); Buf rb(raw);
                 unsigned char s[ASCON_ISAP_SAVED_KEY_SIZE];
-                { std::vector<unsigned char> ts(x.objsize + 64); C *tmp = x.make_default(ts.data()); tmp->set_key(rb.p, x.K); x.save(*tmp, s); tmp->~C(); }
-                bool r = o->set_key(s, sizeof(s));
+                { Buf ts(x.objsize, false, JUNK, true); C *tmp = x.make_default(ts.p); tmp->set_key(rb.p, x.K); x.save(*tmp, s); tmp->~C(); }
+                bool r; { KBUF(sb, s, sizeof(s)); r = o->set_key(sb.p, sizeof(s)); }
                 doc.kknown = true; doc.saved = true; doc.key.assign(s, s + sizeof(s));
                 out.put(" SK[r=" + std::to_string(r ? 1 : 0) + ",k=" + keyid() + "]");
                 if (!r) note("ret");
@@ -369,7 +395,6 @@ struct Run {
             check_state();
         }
         o->~C();
-        free(store);
         return " doc=" + (dev.empty() ? std::string("ok") : dev);
     }
 };
@@ -439,10 +464,14 @@ struct XofaC {
 
 // the const char* / std::string overloads: for xofa only where they compile
 template <class T> struct StrAbsorb {
+#if defined(ARDUINO)
+    static bool cstr(T &o, const char *s) { if (s && ba_coin()) { String a(s); o.absorb(a); } else o.absorb(s); return true; }
+    static bool str(T &o, const std::string &s) { String a(mk_string((const unsigned char *)s.data(), s.size())); o.absorb(a); return true; }
+#elif !defined(ASCON_NO_STL)
     static bool cstr(T &o, const char *s) { o.absorb(s); return true; }
-#if !defined(ASCON_NO_STL)
     static bool str(T &o, const std::string &s) { o.absorb(s); return true; }
 #else
+    static bool cstr(T &o, const char *s) { o.absorb(s); return true; }
     static bool str(T &, const std::string &) { return false; }        // no absorb(const std::string &) without the STL
 #endif
 };
@@ -463,8 +492,8 @@ template <class A> static std::string c_side(const Toks &t, size_t from, size_t 
         if (c == "init") { A::init(s); have = true; }
         else if (c == "init_fixed") { A::init_fixed(s, (size_t)atol(f[1].c_str())); have = true; }
         else if (c == "init_custom") {
-            Bytes name = unhex(f[1] == "NULL" ? "-" : f[1]); name.push_back(0); Bytes cu = unhex(f[2]); Buf cb(cu, true);
-            A::init_custom(s, f[1] == "NULL" ? 0 : (const char *)name.data(), cb.p, cb.n, (size_t)atol(f[3].c_str())); have = true;
+            Bytes name = unhex(f[1] == "NULL" ? "-" : f[1]); name.push_back(0); Buf nmb(name); Bytes cu = unhex(f[2]); Buf cb(cu, true);
+            A::init_custom(s, f[1] == "NULL" ? 0 : (const char *)nmb.p, cb.p, cb.n, (size_t)atol(f[3].c_str())); have = true;
         }
         else if (!have) return "C-CALL-BEFORE-INIT";
         else if (c == "reinit") A::reinit(s);
@@ -495,7 +524,7 @@ template <class T, class A, size_t L> static std::string xof_run(const Toks &t) 
     {   std::vector<std::string> f = split(t[3], ':');
         if (f[0] == "D") o = new T();
         else if (f[0] == "N") {       // named constructors: N:<name|NULL>:<custom>:<form>
-            Bytes name = unhex(f[1] == "NULL" ? "-" : f[1]); name.push_back(0); const char *nm = f[1] == "NULL" ? 0 : (const char *)name.data();
+            Bytes name = unhex(f[1] == "NULL" ? "-" : f[1]); name.push_back(0); Buf nmb(name); const char *nm = f[1] == "NULL" ? 0 : (const char *)nmb.p;
             Bytes cu = unhex(f[2]); Buf cb(cu, true);
             if (f[3] == "1") o = new T(nm);                     // (name): custom = 0, customlen = 0
             else if (f[3] == "3") o = new T(nm, cb.p, cb.n);
@@ -508,15 +537,15 @@ template <class T, class A, size_t L> static std::string xof_run(const Toks &t) 
         if (c == "A") { Bytes d = unhex(f[1]); Buf b(d, true); o->absorb(b.p, b.n); }
         else if (c == "AB") { Bytes d = unhex(f[1]); ascon::byte_array b(mk_ba(d)); o->absorb(b); }
         else if (c == "AC") { if (f[1] == "NULL") { if (!StrAbsorb<T>::cstr(*o, 0)) skipped = " SKIPPED-NONCOMPILING"; }
-                              else { Bytes d = unhex(f[1]); d.push_back(0); if (!StrAbsorb<T>::cstr(*o, (const char *)d.data())) { skipped = " SKIPPED-NONCOMPILING";
-                                     o->absorb(d.data(), strlen((const char *)d.data())); } } }
+                              else { Bytes d = unhex(f[1]); d.push_back(0); Buf db(d); if (!StrAbsorb<T>::cstr(*o, (const char *)db.p)) { skipped = " SKIPPED-NONCOMPILING";
+                                     Buf d2(Bytes(d.begin(), d.begin() + strlen((const char *)d.data())), true); o->absorb(d2.p, d2.n); } } }
         else if (c == "AS") { Bytes d = unhex(f[1]); std::string s((const char *)d.data(), d.size()); if (!StrAbsorb<T>::str(*o, s)) {
 #if defined(ASCON_NO_STL)
                                      nostl = " SKIPPED-NOSTL";
 #else
                                      skipped = " SKIPPED-NONCOMPILING";
 #endif
-                                     o->absorb(d.data(), d.size()); } }
+                                     Buf db(d, true); o->absorb(db.p, db.n); } }
         else if (c == "Q") { size_t n = (size_t)atol(f[1].c_str()); Buf b(n); o->squeeze(b.p, n); xo.insert(xo.end(), b.p, b.p + n); }
         else if (c == "QB") { size_t n = (size_t)atol(f[1].c_str()); ascon::byte_array b = o->squeeze(n); if (b.size() != n) return "SQUEEZE-SIZE"; xo.insert(xo.end(), b.begin(), b.end()); }
         else if (c == "P") o->pad();
@@ -593,11 +622,18 @@ template <class T, class A> static std::string hash_run(const Toks &t) {
         std::vector<std::string> f = split(t[i], ':'); const std::string &c = f[0];
         if (c == "U") { Bytes d = unhex(f[1]); Buf b(d, true); o->update(b.p, b.n); }
         else if (c == "UB") { Bytes d = unhex(f[1]); ascon::byte_array b(mk_ba(d)); o->update(b); }
-        else if (c == "UC") { if (f[1] == "NULL") o->update((const char *)0); else { Bytes d = unhex(f[1]); d.push_back(0); o->update((const char *)d.data()); } }
-#if !defined(ASCON_NO_STL)
+#if defined(ARDUINO)
+        else if (c == "UC") { if (f[1] == "NULL") o->update((const char *)0); else { Bytes d = unhex(f[1]); d.push_back(0); Buf db(d);
+                              if (ba_coin()) { String a((const char *)d.data()); o->update(a); } else o->update((const char *)db.p); } }
+        else if (c == "US") { Bytes d = unhex(f[1]); String a(mk_string(d)); o->update(a); }
+#else
+        else if (c == "UC") { if (f[1] == "NULL") o->update((const char *)0); else { Bytes d = unhex(f[1]); d.push_back(0); Buf db(d); o->update((const char *)db.p); } }
+#endif
+#if defined(ARDUINO)
+#elif !defined(ASCON_NO_STL)
         else if (c == "US") { Bytes d = unhex(f[1]); o->update(std::string((const char *)d.data(), d.size())); }
 #else
-        else if (c == "US") { Bytes d = unhex(f[1]); o->update(d.data(), d.size()); nostl = " SKIPPED-NOSTL"; }     // no update(const std::string &)
+        else if (c == "US") { Bytes d = unhex(f[1]); Buf db(d, true); o->update(db.p, db.n); nostl = " SKIPPED-NOSTL"; }     // no update(const std::string &)
 #endif
         else if (c == "F") { Buf b(32); o->finalize(b.p); xo.insert(xo.end(), b.p, b.p + 32); }
         else if (c == "FB") { ascon::byte_array b = o->finalize(); if (b.size() != 32) return "FINALIZE-SIZE"; xo.insert(xo.end(), b.begin(), b.end()); }
@@ -628,7 +664,7 @@ static Reg r_hshx("HSHX", op_hshx);
 // Each prints the C++ result and C=ok when the C function gives the same.
 static std::string op_utl(const Toks &t) {
     ba_line(t);
-#if defined(ASCON_NO_STL)
+#if defined(ASCON_NO_STL) && !defined(ARDUINO)
     // bytes_to_hex (both forms) and bytes_from_hex(const std::string &) do not exist without the STL (utility.h:303)
     if (t[1] == "TOHEX" || t[1] == "TOHEXD" || (t[1] == "FROMHEX" && t[3] == "S")) return "SKIPPED-NOSTL";
 #else
@@ -636,12 +672,21 @@ static std::string op_utl(const Toks &t) {
         bool dflt = t[1] == "TOHEXD";
         Bytes d = unhex(t[2]); bool up = !dflt && t[3] == "1"; const std::string &form = t[dflt ? 3 : 4];
         std::string s;
+#if defined(ARDUINO)
+        // the ARDUINO forms return a String: its length() characters are the result
+        String as;
+        if (form == "P") { Buf b(d, true); as = dflt ? ascon::bytes_to_hex(b.p, b.n) : ascon::bytes_to_hex(b.p, b.n, up); }
+        else { ascon::byte_array b(mk_ba(d)); as = dflt ? ascon::bytes_to_hex(b) : ascon::bytes_to_hex(b, up); }
+        s = std::string(as.c_str(), as.length());
+        if (strlen(as.c_str()) != as.length()) s += "<NUL-INSIDE>";
+#else
         if (form == "P") { Buf b(d, true); s = dflt ? ascon::bytes_to_hex(b.p, b.n) : ascon::bytes_to_hex(b.p, b.n, up); }
         else { ascon::byte_array b(mk_ba(d)); s = dflt ? ascon::bytes_to_hex(b) : ascon::bytes_to_hex(b, up); }
-        std::vector<char> o(d.size() * 2 + 1); Buf b(d, true);
-        int r = ascon_bytes_to_hex(o.data(), o.size(), b.p, b.n, up ? 1 : 0);
-        bool ok = r == (int)(d.size() * 2) && s == std::string(o.data(), (size_t)r);
-        return "S=" + (s.empty() ? std::string("-") : s) + (ok ? " C=ok" : " C=MISMATCH:" + std::string(o.data(), r > 0 ? (size_t)r : 0));
+#endif
+        Buf o(d.size() * 2 + 1); Buf b(d, true);
+        int r = ascon_bytes_to_hex((char *)o.p, o.n, b.p, b.n, up ? 1 : 0);
+        bool ok = r == (int)(d.size() * 2) && s == std::string((const char *)o.p, (size_t)r);
+        return "S=" + (s.empty() ? std::string("-") : s) + (ok ? " C=ok" : " C=MISMATCH:" + std::string((const char *)o.p, r > 0 ? (size_t)r : 0));
     }
 #endif
     if (t[1] == "FROMDATA") {
@@ -654,8 +699,16 @@ static std::string op_utl(const Toks &t) {
         if (!null) chars = unhex(t[2]);
         const std::string &form = t[3];
         if (form == "L") { Buf b(chars, true); v = ascon::bytes_from_hex((const char *)b.p, b.n); }
-        else if (form == "C") { if (null) v = ascon::bytes_from_hex((const char *)0); else { Bytes z = chars; z.push_back(0); v = ascon::bytes_from_hex((const char *)z.data()); chars.resize(strlen((const char *)z.data())); } }
-#if !defined(ASCON_NO_STL)
+#if defined(ARDUINO)
+        else if (form == "C") { if (null) v = ascon::bytes_from_hex((const char *)0); else { Bytes z = chars; z.push_back(0); Buf zb(z);
+                                if (ba_coin()) { String a((const char *)z.data()); v = ascon::bytes_from_hex(a); } else v = ascon::bytes_from_hex((const char *)zb.p);
+                                chars.resize(strlen((const char *)z.data())); } }
+        else { String a(mk_string(chars)); v = ascon::bytes_from_hex(a); }
+#else
+        else if (form == "C") { if (null) v = ascon::bytes_from_hex((const char *)0); else { Bytes z = chars; z.push_back(0); Buf zb(z); v = ascon::bytes_from_hex((const char *)zb.p); chars.resize(strlen((const char *)z.data())); } }
+#endif
+#if defined(ARDUINO)
+#elif !defined(ASCON_NO_STL)
         else { v = ascon::bytes_from_hex(std::string((const char *)chars.data(), chars.size())); }
 #endif
         Buf o(chars.size() / 2), cb(chars, true);
